@@ -95,7 +95,7 @@ var clauseKW = map[string]bool{
 	"requires": true, "ensures": true, "invariant": true, "modifies": true, "decreases": true,
 	"helper": true, "inline": true, "pure": true, "nowf": true, "use": true, "protocol": true,
 	"yields": true, "param": true, "contract": true, "applies": true, "opaque": true, "entry": true, "spec": true,
-	"terminal": true, "allocates": true, "pred": true, "trigger": true, "assumed": true, "logic": true, "axiom": true, "nilrecv": true, "verify": true,
+	"terminal": true, "allocates": true, "pred": true, "trigger": true, "assumed": true, "partial": true, "logic": true, "axiom": true, "nilrecv": true, "verify": true,
 }
 
 var labelRe = regexp.MustCompile(`^([A-Za-z_][\w']*)\s*(\[[A-Za-z0-9, ]*\])?\s*:`)
@@ -305,7 +305,7 @@ func (cs *ContractSet) ParseContractLines(file string, lines []string, poss []st
 				}
 				cur.Modifies = append(cur.Modifies, &ModItem{Text: m, Expr: e})
 			}
-		case "helper", "inline", "pure", "nowf", "opaque", "entry", "allocates", "nilrecv", "verify", "assumed":
+		case "helper", "inline", "pure", "nowf", "opaque", "entry", "allocates", "nilrecv", "verify", "assumed", "partial":
 			if cur != nil {
 				cur.Flags[it.kw] = true
 			}
